@@ -278,7 +278,7 @@ def main(argv):
     # order_independent_hash
     oih = []
     for _ in range(12 if c.volume == "quick" else 100):
-        ls = [bytes(rng.choice(b"abcdefgh \t\x80\xff") for _ in range(rng.choice((0, 1, 5, 8, 13, 30)))) for _ in range(rng.randrange(0, 9))]
+        ls = [bytes(rng.choice(b"abcdefgh \t\x80\xff") for _ in range(rng.choice((0, 1, 5, 8, 13, 30, 30, 2000, 70001)))) for _ in range(rng.randrange(0, 9))]
         data = b"".join(l + b"\n" for l in ls)
         st, so, se = run_tool([repo_bin("order_independent_hash")], stdin=data, timeout=60)
         want = ("%d\n" % (sum(murmur64a_py(l, 0) for l in ls) & MASK)).encode()
@@ -287,7 +287,8 @@ def main(argv):
         if st != 0 or so != want:
             c.violation("tool/order_independent_hash: printed %r (status %s), reference sum of line hashes is %r" % (so[:40], st, want),
                         {"op": "order_independent_hash", "stdin_hex": hexs(data), "stdout": so[:80].decode("latin1"), "expected": want.decode()})
-        oih.append(("O " + " ".join(hx(l) for l in ls), so.decode("latin1").strip()))
+        if sum(len(l) for l in ls) < 400:
+            oih.append(("O " + " ".join(hx(l) for l in ls), so.decode("latin1").strip()))
     if drv is not None:
         mlines = [x for x, _ in small_model + oih]
         rc, mo2, err = run_lines(drv, mlines)
@@ -306,6 +307,10 @@ def main(argv):
         for _ in range(40 if c.volume == "quick" else 400):
             words = [bytes(rng.choice(b"abcdefxyz\xc3\xa9") for _ in range(rng.randrange(1, 12))) for _ in range(4)]
             ls.append(b" ".join(words))
+        for n in (100, 1000, 9000, 70000):          # long keys: every byte of the key counts
+            w = bytes(rng.choice(b"abcdefxyz") for _ in range(n))
+            ls.append(b"k " + w + b" " + w[:7] + b" z")
+            ls.append(b"k " + w[:-1] + b"Q " + w[:7] + b" z")
         outs = [os.path.join(SCRATCH, "shard%d" % i) for i in range(nsh)]
         for o in outs:
             if os.path.exists(o):
